@@ -98,17 +98,26 @@ def build_inputs(ctx, case, env):
 
 
 def install_readers(inp):
+    import shutil as _shutil
+    staged = {}      # staged copy -> original (copy_data_over)
+
+    class _Shutil:
+        def __getattr__(self, n):
+            return getattr(_shutil, n)
+
+        def copy(self, src, dst, **k):
+            r = _shutil.copy(src, dst, **k)
+            staged[str(dst)] = staged.get(str(src), str(src))
+            return r
+
+    patch(PFA, 'shutil', _Shutil())
+
     def rd(path, df_name):
         path = str(path)
+        path = staged.get(path, path)
         if path not in inp['names']:
-            # a staged copy of an input file (copy_data_over): find the
-            # original through the placeholder's token lineage (prefix)
-            import os
-            base = os.path.basename(path)
-            for orig in inp['names']:
-                if base.startswith(os.path.basename(orig)):
-                    path = orig
-                    break
+            raise core.ShimGap(f"read_df_from_h5ad of an unknown file "
+                               f"{path}")
         if df_name == 'obs':
             return FakeDF(list(inp['names'][path]))
         if df_name == 'var':
